@@ -14,7 +14,8 @@ ID = "C04"
 BUDGET = {"quick": 2600, "thorough": 70000}
 REQUIRED = ["judged:shared-edge-sequences", "judged:anti-aligned-shared-edge", "judged:preserve-start/end",
             "judged:preserve-through-flipped-block", "judged:multi-section", "judged:simpleGrading-four-wires-equal",
-            "judged:file-vs-hooked-state", "kind:edgeGrading", "kind:simpleGrading", "judged:sandwich-family", "judged:assembly-with-arc-edges"]
+            "judged:file-vs-hooked-state", "kind:edgeGrading", "kind:simpleGrading", "judged:sandwich-family", "judged:assembly-with-arc-edges",
+            "history:write-twice", "history:assemble-grade-write", "unit:2e-06", "unit:0.001", "judged:arc-defined-by-the-first-block-only"]
 MIN_KEYS = 40
 RULE = (
     "jittered lattice assemblies (all edge lengths distinct), 24 orientations per block, exactly one chopped block per "
@@ -120,6 +121,21 @@ def gen_case(ctx):
         b, a = rng.choice(members)
         for kw in gen_chops(rng, scale):
             case["blocks"][b]["chops"].append([a, kw])
+    if case["arcs"] and rng.random() < 0.5:
+        case["arcs_by"] = "first"
+    # history on the long-lived mesh: the judged file is the one written last
+    case["history"] = rng.choices(["write", "write-twice", "assemble-grade-write"], [0.6, 0.25, 0.15])[0]
+    # model unit: the same model built in millimetres / micrometres / tens of metres
+    unit = rng.choices([1.0, 1e-3, 2e-6, 40.0], [0.7, 0.1, 0.1, 0.1])[0]
+    if unit != 1.0:
+        case["unit"] = unit
+        for blk in case["blocks"]:
+            blk["pts"] = [[x * unit for x in p] for p in blk["pts"]]
+            for _, kw in blk["chops"]:
+                for k in ("start_size", "end_size"):
+                    if k in kw:
+                        kw[k] *= unit
+        case["arcs"] = {k: [x * unit for x in p] for k, p in case["arcs"].items()}
     return case
 
 
@@ -149,7 +165,22 @@ def run_case(ctx, case):
 
     mesh, ops = lattice.build_mesh(case, cb)
     path = util.tmpfile("c04")
-    got, err = util.write_outcome(mesh, path)
+    history = case.get("history", "write")
+    ctx.count(f"history:{history}")
+    ctx.count(f"unit:{case.get('unit', 1.0):g}")
+    if history == "write-twice":
+        got, err = util.write_outcome(mesh, path)
+        if got == "success":
+            got, err = util.write_outcome(mesh, path)
+    elif history == "assemble-grade-write":
+        try:
+            mesh.assemble()
+            mesh.grade()
+        except Exception:  # noqa: BLE001  (the write below reports the same outcome)
+            pass
+        got, err = util.write_outcome(mesh, path)
+    else:
+        got, err = util.write_outcome(mesh, path)
     ctx.evaluated()
     if got != "success":
         util.rm(path)
@@ -299,7 +330,9 @@ def run_case(ctx, case):
             nontrivial = True
     if case.get("arcs"):
         ctx.count("judged:assembly-with-arc-edges")
-    ctx.key([lattice.contact_summary(case), sorted(feats), anti_seen, flipped_chain, bool(case.get("arcs"))], nontrivial=nontrivial)
+        if case.get("arcs_by") == "first":
+            ctx.count("judged:arc-defined-by-the-first-block-only")
+    ctx.key([lattice.contact_summary(case), sorted(feats), anti_seen, flipped_chain, bool(case.get("arcs")), case.get("arcs_by"), history, case.get("unit", 1.0)], nontrivial=nontrivial)
     ctx.sample({"dims": case["dims"], "blocks": [{"cell": b["cell"], "perm": b["perm"], "chops": b["chops"]} for b in blocks]})
 
 
